@@ -60,6 +60,8 @@ FIELD_DOCS = ['/// documented field %s', '/// %s: hidden while the unit is disab
 
 def field_doc(f, tail=''):
     """the wording of a doc comment is free (seeded change C19-m8 looked for the word `hidden` in it)"""
+    if f.get('doc_text'):
+        return f['doc_text']
     t = FIELD_DOCS[sum(ord(c) for c in f['name']) % len(FIELD_DOCS)] % (f['name'].replace('r#', '') + tail)
     return t
 
